@@ -154,4 +154,27 @@ MUTANTS = [
          old="            Ty::TVec { elem } => Ty::TVec {\n                elem: Box::new(self.collapse_type_apps(elem)),\n            },\n", new=""),
     dict(name="tmono-ref-arm-dropped", prop="C07", units=["u_tmono"], file="crates/compiler/src/mono.rs", expect=1,
          old="            Ty::TRef { elem } => Ty::TRef {\n                elem: Box::new(self.collapse_type_apps(elem)),\n            },\n            _ => ty.clone(),", new="            _ => ty.clone(),"),
+    # ---- harmless refactorings: must never raise an alarm (0 expected; 2 tolerated only where stated)
+    dict(name="harmless-advance-reorder", prop="C04", units=["u_pcore"], file="crates/parser/src/parser.rs", expect=0,
+         old="        self.fuel.set(256);\n        self.input.skip();\n        self.stuck_reported.set(false);", new="        self.stuck_reported.set(false);\n        self.fuel.set(256);\n        self.input.skip();"),
+    dict(name="harmless-import-optional-semi", prop="C04", units=["u_grammar"], file="crates/parser/src/file.rs", expect=0,
+         old='        p.advance_with_error("expected an import name");\n    }', new='        p.advance_with_error("expected an import name");\n    }\n    p.eat(T![;]);'),
+    dict(name="harmless-dce-arm-order", prop="C09", units=["u_dcefx"], file="crates/compiler/src/go/dce.rs", expect=0,
+         old="        ast::Expr::Call { .. } => true,\n", new="        ast::Expr::Call { func: _, .. } => true,\n"),
+    dict(name="harmless-hashview-field-order", prop="C15", units=["u_art"], file="crates/compiler/src/artifact.rs", expect=0,
+         old="            format_version: self.format_version,\n            compiler_abi: self.compiler_abi,\n            package: &self.package,", new="            package: &self.package,\n            compiler_abi: self.compiler_abi,\n            format_version: self.format_version,"),
+    dict(name="harmless-mls-assign-form", prop="C12", units=["u_mls"], file="crates/lexer/src/lib.rs", expect=0,
+         old="    // Include the newline separating the first and second lines.\n    consumed += 1;", new="    consumed = consumed + 1;"),
+    dict(name="harmless-unify-err-text", prop="C07", units=["u_munify"], file="crates/compiler/src/mono.rs", expect=0,
+         old='return Err("tuple length mismatch".to_string());', new='return Err("tuple arity mismatch".to_string());'),
+    dict(name="harmless-link-message", prop="C15", units=["u_link"], file="crates/compiler/src/pipeline/separate.rs", expect=0,
+         old='"duplicate core provided for package {}"', new='"duplicate core for package {}"'),
+    dict(name="harmless-tree-local-rename-undecided", prop="C12", units=["u_tree"], file="crates/parser/src/parser.rs", expect=2, count=5,
+         old="kinds", new="ks"),
+    dict(name="harmless-input-nth-early-return", prop="C12", units=["u_input"], file="crates/parser/src/input.rs", expect=0,
+         old="        let mut idx = self.cursor;\n        let mut remaining = n;", new="        let mut remaining = n;\n        let mut idx = self.cursor;"),
+    dict(name="harmless-bp-add-comment", prop="C11", units=["u_bp"], file="crates/parser/src/expr.rs", expect=0,
+         old="        T![.] => Some((23, 24)),", new="        // field access\n        T![.] => Some((23, 24)),"),
+    dict(name="harmless-grammar-extra-peek", prop="C04", units=["u_grammar"], file="crates/parser/src/file.rs", expect=0,
+         old="fn attribute_list(p: &mut Parser) -> MarkerClosed {\n    let m = p.open();", new="fn attribute_list(p: &mut Parser) -> MarkerClosed {\n    let m = p.open();\n    let _ = p.peek();"),
 ]
